@@ -710,7 +710,8 @@ def f6(ctx):
             start, stop, step = [src(a) for a in rng.args]
             var = g.target.id if isinstance(g.target, ast.Name) else None
             width = None
-            m = re.fullmatch(r'%s \+ (\w+)' % re.escape(var or '?'), hi)
+            m = re.fullmatch(r'%s \+ (\w+)' % re.escape(var or '?'), hi) or \
+                re.fullmatch(r'(\w+) \+ %s' % re.escape(var or '?'), hi)
             if m and lo == var:
                 width = m.group(1)
             roles = _transpose_roles(fn)
